@@ -28,8 +28,69 @@ func (x *Exec) shouldInline(fn *ssa.Function) bool {
 	return !fi.hasLoops && fi.ninstr <= x.inlineLimit
 }
 
+// calledName: the name under which a callhint refers to a call (method name for interface and method calls, function name otherwise).
+func calledName(cc *ssa.CallCommon) string {
+	if cc.IsInvoke() {
+		return cc.Method.Name()
+	}
+	if f, ok := cc.Value.(*ssa.Function); ok {
+		return f.Name()
+	}
+	return ""
+}
+
+// checkCallHints: obligations "callhint Name cond" of the function under verification, at a call in its own body.
+func (x *Exec) checkCallHints(st *State, fr *Frame, call *ssa.Call) {
+	vc := x.vc
+	if vc == nil || vc.spec == nil || len(vc.spec.CallHints) == 0 || fr.fn != vc.fn || len(st.frames) != 1 {
+		return
+	}
+	name := calledName(call.Common())
+	for i, ch := range vc.spec.CallHints {
+		if ch.Name != name {
+			continue
+		}
+		env := x.entryEnv(st)
+		env.fr = fr
+		label := ch.C.Label
+		if label == "" {
+			label = fmt.Sprintf("%d", i+1)
+		}
+		rv := x.revealAxioms(env, ch.C.Reveal)
+		t := x.evalBool(env, ch.C.E)
+		side := append(rv, env.takeSide()...)
+		x.oblige(st, "callhint."+name, label, ch.C.Props, t, ch.C.Src+" @ "+x.prog.Fset.Position(call.Pos()).String(), side...)
+		st.assume(And(side...))
+		st.assume(t)
+	}
+}
+
 func (x *Exec) stepCall(st *State, fr *Frame, call *ssa.Call) ([]*State, bool) {
+	res, adv := x.stepCall1(st, fr, call)
+	// last_<Name> in contracts: the result of the most recent call of a function / method of that name in the body of the
+	// function under verification (forgotten at every loop cut)
+	if name := calledName(call.Common()); name != "" && x.vc != nil && fr.fn == x.vc.fn {
+		if _, isTuple := call.Type().(*types.Tuple); !isTuple {
+			for _, s := range append([]*State{st}, res...) {
+				if s == nil || len(s.frames) == 0 {
+					continue
+				}
+				if v, ok := s.frames[0].vals[call]; ok && v.T != nil && len(s.frames) == 1 {
+					s.ghost["last:"+name] = v.T
+					if x.lastTypes == nil {
+						x.lastTypes = map[string]types.Type{}
+					}
+					x.lastTypes[name] = call.Type()
+				}
+			}
+		}
+	}
+	return res, adv
+}
+
+func (x *Exec) stepCall1(st *State, fr *Frame, call *ssa.Call) ([]*State, bool) {
 	cc := call.Common()
+	x.checkCallHints(st, fr, call)
 	if b, ok := cc.Value.(*ssa.Builtin); ok {
 		return x.stepBuiltin(st, fr, call, b)
 	}
